@@ -134,16 +134,19 @@ Proof.
   rewrite (H c) by now left. apply IH. intros d Hd. apply H. now right.
 Qed.
 
+Lemma strip_with_rev f s : strip_with f s = rev (drop_while f (rev (drop_while f s))).
+Proof. unfold strip_with, rev'. now rewrite <- !rev_alt. Qed.
+
 Lemma strip_with_id f s : (forall c, In c s -> f c = false) -> strip_with f s = s.
 Proof.
-  intros H. unfold strip_with. rewrite (drop_while_id f s H).
+  intros H. rewrite strip_with_rev. rewrite (drop_while_id f s H).
   rewrite drop_while_id; [apply rev_involutive|]. intros c Hc. apply H. now apply in_rev.
 Qed.
 
 Lemma strip_with_tail f s t :
   (forall c, In c s -> f c = false) -> (forall c, In c t -> f c = true) -> strip_with f (s ++ t) = s.
 Proof.
-  intros Hs Ht. unfold strip_with. destruct s as [|c s'].
+  intros Hs Ht. rewrite strip_with_rev. destruct s as [|c s'].
   - cbn [app]. replace (drop_while f t) with (@nil N); [reflexivity|].
     rewrite <- (app_nil_r t) at 1. now rewrite drop_while_all.
   - cbn [app drop_while]. rewrite (Hs c) by now left.
